@@ -721,6 +721,13 @@ impl World {
         let r = c_api::shorebird_update_with_result(
             c.as_ref().map_or(std::ptr::null(), |s| s.as_ptr()),
         );
+        if r.is_null() {
+            // the engine and the Dart binding dereference the result unconditionally
+            if tr {
+                crate::track::disarm();
+            }
+            return "NULLRESULT".into();
+        }
         let status = unsafe { (*r).status };
         unsafe { c_api::shorebird_free_update_result(r as *mut c_api::UpdateResult) };
         if tr {
@@ -939,6 +946,9 @@ impl World {
                 Self::set_env(None, None);
                 let bad = [0xffu8, 0xfe, 0x00];
                 let r = c_api::shorebird_update_with_result(bad.as_ptr() as *const libc::c_char);
+                if r.is_null() {
+                    return "NULLRESULT".into();
+                }
                 let status = unsafe { (*r).status };
                 let has_msg = unsafe { !(*r).message.is_null() };
                 unsafe { c_api::shorebird_free_update_result(r as *mut c_api::UpdateResult) };
